@@ -19,14 +19,43 @@ def abf_conf(case):
               "  distanceZ {", "    main { atomNumbers %d }" % (d + 1), "    ref { dummyAtom (0,0,0) }",
               "    axis (0,0,1)", "    oneSiteTotalForce on", "  }", "}"]
     L += ["abf {", "  name a", "  colvars " + " ".join("v%d" % d for d in range(nd)),
-          "  fullSamples %d" % case.get("full", 2), "  applyBias %s" % ("on" if case.get("apply", True) else "off"),
-          "  shared on", "  sharedFreq %d" % case["freq"], "}"]
+          "  fullSamples %d" % case.get("full", 2), "  applyBias %s" % ("on" if case.get("apply", True) else "off")]
+    if not case.get("integrate", True):
+        L += ["  integrate off"]
+    if case.get("hist"):
+        # periodic output with a history of the shared grids (written by replica 0 only)
+        of = case["freq"] if case["freq"] > 0 else 2
+        L += ["  outputFreq %d" % of, "  historyFreq %d" % of]
+    if case.get("script"):
+        # sharing is switched on by the script command "cv bias a share" (event "x"), not by the configuration
+        L += ["}"]
+    else:
+        L += ["  shared on", "  sharedFreq %d" % case["freq"], "}"]
     return L
 
 
+def strip_last_section(path, fmt, cut_in_key=False):
+    """Turn the state file of a shared-ABF walker into one of the older format, which has no
+    last_samples/last_gradient section (text: the lines from the keyword to the closing brace of the
+    block; binary: from the length word of the keyword to the end -- the ABF block is the last one).
+    cut_in_key: binary only, keep the length word and 3 bytes of the keyword (a file cut short)."""
+    data = open(path, "rb").read()
+    if fmt == "text":
+        lines = data.decode().split("\n")
+        i = next(k for k, x in enumerate(lines) if x.strip() == "last_samples")
+        j = next(k for k in range(i, len(lines)) if lines[k].strip() == "}")
+        out = "\n".join(lines[:i] + lines[j:]).encode()
+    else:
+        i = data.index(b"last_samples")
+        out = data[:i + 3] if cut_in_key else data[:i - 8]
+    atomic_write(path, out)
+
+
 def abf_setup(case, first=True):
-    L = ["natoms %d" % case["nd"], "samestep 1", "includecv 1", "new", "config EOF"] + abf_conf(case) + ["EOF",
-         "show cv 0 energy 0 bias 0 atomf 0"]
+    L = ["natoms %d" % case["nd"], "samestep 1", "includecv 1"] + (["smp perm 2"] if case.get("smp") else []) + \
+        ["new", "config EOF"] + abf_conf(case) + \
+        (["harmonic {", "  name h", "  colvars v0", "  centers 0", "  forceConstant 0.0", "}"] if case.get("smp") else []) + ["EOF",
+         "show cv 0 energy 0 bias 0 atomf 0"] + (["outprefix out"] if case.get("output") else [])
     return L
 
 
@@ -107,6 +136,30 @@ def run_abf(exe, case, scratch, timeout=30.0):
                 else:
                     r = T.walkers[w].collect(tok, timeout)
                     out[k] = (w, [x for x in r if x.startswith("STEP")], parse_shared(r))
+            elif ev[0] == "x":
+                # walker w calls "cv bias a share": returns when every walker has called it
+                tok = T.walkers[w].send(["script cv bias a share", "dumpshared a"])
+                pending[w] = (k, tok)
+                if len(pending) == n:
+                    for pw, (pk, ptok) in sorted(pending.items()):
+                        r = T.walkers[pw].collect(ptok, timeout)
+                        out[pk] = (pw, [x for x in r if x.startswith("SCRIPT")], parse_shared(r))
+                    pending = {}
+            elif ev[0] == "R":
+                # restart through a state of the older format (no last_samples/last_gradient section);
+                # ev[3] = True: an unformatted state cut inside the keyword instead, which must be refused
+                fmt = ev[2]
+                r = T.walkers[w].do(["save %s st%d" % (fmt, k)], timeout)
+                strip_last_section(os.path.join(dirs[w], "st%d" % k), fmt, cut_in_key=bool(len(ev) > 3 and ev[3]))
+                r += T.walkers[w].do(abf_setup(case) + ["load st%d" % k, "dumpshared a"], timeout)
+                out[k] = (w, [x for x in r if x.startswith(("SAVE", "LOAD", "CONFIG"))], parse_shared(r))
+                first[w] = True
+                last[w] = t[w] if t[w] is not None else 0
+            elif ev[0] == "o":
+                # end-of-run output of walker w (write_output_files: .count/.grad/.pmf of the local and, on replica 0, of the
+                # shared grids); changes nothing in the grids
+                r = T.walkers[w].do(["postrun", "dumpshared a"], timeout)
+                out[k] = (w, [x for x in r if x.startswith("POSTRUN")], parse_shared(r))
             elif ev[0] == "r":
                 fmt = ev[2]
                 r = T.walkers[w].do(["save %s st%d" % (fmt, k)] + abf_setup(case) + ["load st%d" % k, "dumpshared a"], timeout)
@@ -125,13 +178,19 @@ def run_abf(exe, case, scratch, timeout=30.0):
 
 SIGMA = 1.0 / 64      # so narrow that a hill centred in a bin contributes exactly its weight to that bin and 0.0 elsewhere
 
+def rid(case, w):
+    """name of walker w: given in the configuration, or (idfromcomm: no replicaID keyword, replica interface of the engine
+    available) the replica index the engine reports"""
+    return ("%d" % w) if case.get("idfromcomm") else ("w%d" % w)
+
+
 def meta_conf(case, rid, registry):
     return ["colvar {", "  name v0", "  lowerBoundary 0", "  upperBoundary %d" % case["nbins"], "  width 1",
             "  distanceZ {", "    main { atomNumbers 1 }", "    ref { dummyAtom (0,0,0) }", "    axis (0,0,1)", "  }", "}",
             "metadynamics {", "  name m", "  colvars v0", "  hillWeight 1", "  gaussianSigmas %r" % SIGMA,
             "  newHillFrequency %d" % case["hillfreq"]] + (["  useGrids on", "  writeFreeEnergyFile off"] if case.get("grids", True) else ["  useGrids off"]) + [
           ] + (["  stepZeroData on"] if case.get("szd") else []) + [
-            "  multipleReplicas on", "  replicaID %s" % rid, "  replicasRegistry %s" % registry,
+            "  multipleReplicas on"] + ([] if case.get("idfromcomm") else ["  replicaID %s" % rid]) + ["  replicasRegistry %s" % registry,
             "  replicaUpdateFrequency %d" % case["upfreq"], "}"]
 
 
@@ -207,7 +266,10 @@ def content(d, grid, nbins):
                 ok = False
     # keepHills is off: project_hills() erases the list after projecting it, so the list holds exactly the
     # hills that are not in the grid yet
-    for (it, ctr, wgt, rep) in d["hills"]:
+    # (with grids, the hills in front of new_hills_begin are on the grid already: after a state was read, those are the hills
+    # next to the boundaries, which the state lists explicitly in addition to the grid)
+    skip = int(d.get("newbegin", 0)) if grid is not None else 0
+    for (it, ctr, wgt, rep) in d["hills"][skip:]:
         b = int(ctr)        # centres are b + 0.5
         if 0 <= b < nbins:
             c[b] += wgt
@@ -231,15 +293,15 @@ def run_meta(exe, case, scratch, timeout=30.0):
         os.remove(reg)
     out = []
     gen = [0] * n
-    with W.Team(exe, n, dirs, connect=False) as T:
+    with W.Team(exe, n, dirs, connect=bool(case.get("idfromcomm"))) as T:
         started = [False] * n
         for k, ev in enumerate(case["events"]):
             w = ev[1]
-            snap = file_snapshot(dirs, gen, n)
+            snap = file_snapshot(dirs, gen, n, case)
             if not started[w]:
-                r0 = T.walkers[w].do(meta_setup(case, "w%d" % w, reg, "out0", case["restartfreq"][w]), timeout)
+                r0 = T.walkers[w].do(meta_setup(case, rid(case, w), reg, "out0", case["restartfreq"][w]), timeout)
                 started[w] = True
-                snap = file_snapshot(dirs, gen, n)
+                snap = file_snapshot(dirs, gen, n, case)
             if ev[0] == "s":
                 r = T.walkers[w].do(["pos 1 0 0 %s" % float(ev[2] + 0.5).hex(), "step", "errtext", "dumpmeta m"], timeout)
                 out.append((w, snap, parse_meta(r)))
@@ -247,16 +309,16 @@ def run_meta(exe, case, scratch, timeout=30.0):
                 if ev[2]:
                     gen[w] += 1
                 r = T.walkers[w].do(["postrun", "save text st%d" % k] +
-                                    meta_setup(case, "w%d" % w, reg, "out%d" % gen[w], case["restartfreq"][w], load="st%d" % k), timeout)
+                                    meta_setup(case, rid(case, w), reg, "out%d" % gen[w], case["restartfreq"][w], load="st%d" % k), timeout)
                 out.append((w, snap, parse_meta(r)))
     return out
 
 
-def file_snapshot(dirs, gen, n):
+def file_snapshot(dirs, gen, n, case=None):
     snap = {}
     for i in range(n):
-        hp = os.path.join(dirs[i], "out%d.colvars.m.w%d.hills" % (gen[i], i))
-        sp = os.path.join(dirs[i], "out%d.colvars.m.w%d.state" % (gen[i], i))
+        hp = os.path.join(dirs[i], "out%d.colvars.m.%s.hills" % (gen[i], rid(case or {}, i)))
+        sp = os.path.join(dirs[i], "out%d.colvars.m.%s.state" % (gen[i], rid(case or {}, i)))
         hb = read_bytes(hp)
         snap[i] = {"hills_size": len(hb) if hb is not None else None,
                    "state_step": state_step(sp), "gen": gen[i],
@@ -470,7 +532,9 @@ def czar_conf(case):
     return ["colvar {", "  name v0", "  lowerBoundary 0", "  upperBoundary %d" % case["nbins"], "  width 1",
             "  extendedLagrangian on", "  extendedFluctuation 0.5", "  extendedTimeConstant 8", "  extendedTemp 300",
             "  distanceZ {", "    main { atomNumbers 1 }", "    ref { dummyAtom (0,0,0) }", "    axis (0,0,1)", "  }", "}",
-            "abf {", "  name a", "  colvars v0", "  fullSamples 2", "  shared on", "  sharedFreq %d" % case["freq"], "}"]
+            "abf {", "  name a", "  colvars v0", "  fullSamples 2"] + \
+           (["  writeCZARwindowFile on", "  outputFreq %d" % case["freq"], "  historyFreq %d" % case["freq"]] if case.get("hist") else []) + \
+           ([] if case.get("script") else ["  shared on", "  sharedFreq %d" % case["freq"]]) + ["}"]
 
 
 def run_czar(exe, case, scratch, timeout=30.0):
@@ -485,6 +549,7 @@ def run_czar(exe, case, scratch, timeout=30.0):
         os.makedirs(d)
         dirs.append(d)
     res = []
+    restarts = []
     with W.Team(exe, n, dirs, timeout_ms=4000) as T:
         # the total force on an extended-Lagrangian coordinate is the one of the previous step: with same-step forces the
         # ABF and CZAR gradient sums stay zero
@@ -496,11 +561,27 @@ def run_czar(exe, case, scratch, timeout=30.0):
         for t, row in enumerate(case["steps"]):
             T.all_do(lambda i: ["pos 1 0 0 %s" % float(row[i][0] + row[i][1]).hex(),
                                 "eforce 1 0 0 %s" % float(row[i][2]).hex(), "step"], timeout)
+            if case.get("script") and (t + 1) % case["freq"] == 0:
+                # sharing switched on (and performed) by the script command, on all walkers together
+                T.all_do(["script cv bias a share"], timeout)
             if t in case["gather_at"]:
                 before = [parse_shared(r) for r in T.all_do(["dumpshared a"], timeout)]
                 out = T.all_do(["postrun", "dumpshared a"], timeout)
                 res.append((t, [parse_shared(r) for r in out], [[x for x in r if x.startswith("POSTRUN")] for r in out], before))
+                if case.get("twice"):
+                    # a second output at the same step (C14_abf_czar_gather_repeated)
+                    before2 = res[-1][1]
+                    out = T.all_do(["postrun", "dumpshared a"], timeout)
+                    res.append((t, [parse_shared(r) for r in out], [[x for x in r if x.startswith("POSTRUN")] for r in out], before2))
+            fmts = case.get("restart_at", {}).get(str(t))
+            if fmts:
+                # the job ends here and is started again: every walker goes through its state file (walker w in format fmts[w])
+                bs = [parse_shared(r) for r in T.all_do(["dumpshared a"], timeout)]
+                rs = T.all_do(lambda i: ["save %s zst%d" % (fmts[i], t)] + setup + ["load zst%d" % t, "dumpshared a"], timeout)
+                for w, (b, r) in enumerate(zip(bs, rs)):
+                    restarts.append((t, w, fmts[w], b, parse_shared(r), [x for x in r if x.startswith(("SAVE", "LOAD", "CONFIG"))]))
         stats = T.all_do(["repstat"], timeout)
+    case["_restarts"] = restarts
     return res, stats
 
 
@@ -517,10 +598,12 @@ def opes_conf(case):
         L += ["  adaptiveSigma on", "  adaptiveSigmaStride %d" % (2 * case["pace"]), "  gaussianSigmaMin 0.01"]
     else:
         L += ["  gaussianSigma 0.125"]
-    if v == "plain":
+    if v in ("plain", "long"):
         L += ["  fixedGaussianSigma on", "  compressionThreshold 0"]
     elif v == "nlist":
-        L += ["  neighborList on", "  compressionThreshold 0"]
+        L += ["  neighborList on", "  compressionThreshold 0"] + (["  neighborListNewHillReset on"] if case.get("nlreset") else [])
+    elif v == "explore":
+        L += ["  explore on", "  biasfactor 5", "  calcWork on", "  compressionThreshold 0"]
     L += ["  multipleReplicas on", "  sharedFreq %d" % case["pace"], "}"]
     return L
 
@@ -560,7 +643,11 @@ def run_opes(exe, case, scratch, timeout=30.0):
     res = []
     with W.Team(exe, n, dirs, timeout_ms=4000) as T:
         # restartfreq must not be 0: colvarbias_opes computes step % restart_out_freq
-        setup = ["natoms 1", "samestep 1", "temperature 300", "dt 1", "restartfreq 1000", "new", "config EOF"] + opes_conf(case) + \
+        # (smp: the engine's thread pool is on and a second bias is defined; a bias that talks to the other replicas must
+        # then still be updated by the main thread)
+        setup = ["natoms 1", "samestep 1", "temperature 300", "dt 1", "restartfreq 1000"] + (["smp perm 2"] if case.get("smp") else []) + \
+                ["new", "config EOF"] + opes_conf(case) + \
+                (["harmonic {", "  name h", "  colvars v0", "  centers 0", "  forceConstant 0.0", "}"] if case.get("smp") else []) + \
                 ["EOF", "show cv 0 energy 0 bias 0 atomf 0"]
         for r in T.all_do(setup, timeout):
             if not any(x.startswith("CONFIG err=ok") for x in r):
